@@ -15,6 +15,7 @@ import (
 	"sync"
 	"time"
 
+	"github.com/markusressel/fan2go/internal"
 	"github.com/markusressel/fan2go/internal/configuration"
 	"github.com/markusressel/fan2go/internal/control_loop"
 	"github.com/markusressel/fan2go/internal/controller"
@@ -105,10 +106,89 @@ func rcShared(a kv) string {
 	return fmt.Sprintf("ok rounds=%d", rounds)
 }
 
+// rc.sensor kind=<file|hwmon|cmd> readers=<n> rounds=<r>: ONE sensor object read by its monitor (the real updateSensor),
+// by control loops (PID curves call GetValue), and by scrapes (GetValue + GetMovingAvg) at the same time, while its
+// input flips between a valid reading, garbage / empty content and a missing file - the error and recovery paths of
+// GetValue run concurrently.
+func rcSensor(a kv) string {
+	kind := a.str("kind", "file")
+	readers, rounds := a.int("readers", 3), a.int("rounds", 20)
+	dir, err := os.MkdirTemp("", "verifrcs")
+	if err != nil {
+		panic(err)
+	}
+	defer os.RemoveAll(dir)
+	configuration.CurrentConfig.TempRollingWindowSize = 10
+	for r := 0; r < rounds; r++ {
+		rcCounter++
+		p := fmt.Sprintf("rcs%d_", rcCounter)
+		sfile := filepath.Join(dir, p+"temp")
+		_ = os.WriteFile(sfile, []byte("50000\n"), 0o644)
+		cfg := configuration.SensorConfig{ID: p + "s"}
+		switch kind {
+		case "hwmon":
+			cfg.HwMon = &configuration.HwMonSensorConfig{Platform: "fake", Index: 1, TempInput: sfile}
+		case "cmd":
+			script := filepath.Join(dir, p+"s.sh")
+			_ = os.WriteFile(script, []byte("#!/bin/sh\ncat "+sfile+"\n"), 0o755)
+			_ = os.Chown(script, 0, 0)
+			cfg.Cmd = &configuration.CmdSensorConfig{Exec: script}
+		default:
+			cfg.File = &configuration.FileSensorConfig{Path: sfile}
+		}
+		s, err := sensors.NewSensor(cfg)
+		if err != nil {
+			panic(err)
+		}
+		s.SetMovingAvg(50000)
+		stop := make(chan struct{})
+		var wg sync.WaitGroup
+		for i := 0; i < readers+1; i++ {
+			wg.Add(1)
+			go func(i int) {
+				defer wg.Done()
+				defer func() { _ = recover() }()
+				for {
+					select {
+					case <-stop:
+						return
+					default:
+					}
+					if i == 0 {
+						_ = internal.VerifUpdateSensor(s)
+					} else {
+						_, _ = s.GetValue()
+						_ = s.GetMovingAvg()
+					}
+				}
+			}(i)
+		}
+		contents := []string{"50000\n", "", "61000\n", "x\n", "47000\n"}
+		n := 40
+		if kind == "cmd" {
+			n = 6
+		}
+		for k := 0; k < n; k++ {
+			if k%7 == 5 {
+				_ = os.Remove(sfile)
+			} else {
+				_ = os.WriteFile(sfile, []byte(contents[k%len(contents)]), 0o644)
+			}
+			time.Sleep(300 * time.Microsecond)
+		}
+		close(stop)
+		wg.Wait()
+	}
+	return fmt.Sprintf("ok rounds=%d", rounds)
+}
+
 func init() {
 	register("rc", func(op string, a kv) string {
 		if op == "rc.shared" {
 			return rcShared(a)
+		}
+		if op == "rc.sensor" {
+			return rcSensor(a)
 		}
 		return "bad-op"
 	})
